@@ -20,7 +20,9 @@
     every pair of budgets at least as large as two linear bounds -- 9 * (n + 1) state calls per token for the pump,
     460 * (n + 1) + 2 iterations for the parser -- the model of the parse returns a tree, with or without an error
     ([C06_parse_terminates]): no hang, no spinning, no budget used up, no panic, no blocked channel.  Since the budgets
-    exist only in the model (the Go code has none), this is the termination of the compiler.
+    exist only in the model (the Go code has none), this is the termination of the compiler; and above those bounds the
+    result does not depend on the budgets at all -- neither on the pump's, nor on the loop's, nor on what the loops
+    inside the parse methods get ([C06_budgets_do_not_matter]) -- so the tree is the tree, not an artefact.
     What remains outside the theorems: the EXECUTABLE model runs with a smaller budget for the parser's loop
     (4 * (n + 8) iterations; the proved one is a unary number too large for the size-scaling inputs), and the loops
     inside the parse methods run on that budget too and return what they have if it is used up; that these smaller
@@ -30,9 +32,9 @@
     OBLIGATIONS: C06_state_call_emits_few C06_lexer_never_blocks C06_compile_never_deadlocks C06_cursor_stays_in_range
                  C06_lexer_never_panics C06_compile_never_panics C06_state_call_makes_progress C06_lexer_never_spins
                  C06_only_parser_budget_left C06_loop_bounds_never_reached C06_every_state_call_moves_down
-                 C06_lexer_total_work_linear C06_parse_terminates C06_nonvacuous *)
+                 C06_lexer_total_work_linear C06_parse_terminates C06_budgets_do_not_matter C06_nonvacuous *)
 From GV Require Import Compiler.Compile Proofs.LexProofs Proofs.NoDeadlockProofs Proofs.LexSafeProofs Proofs.NoPanicProofs
-  Proofs.LexProgressProofs Proofs.LexPumpProofs Proofs.NoSpinProofs Proofs.LexFuelProofs Proofs.LexTotalProofs Proofs.LexWorkProofs Proofs.LexEndProofs Proofs.ParserTermProofs.
+  Proofs.LexProgressProofs Proofs.LexPumpProofs Proofs.NoSpinProofs Proofs.LexFuelProofs Proofs.LexTotalProofs Proofs.LexWorkProofs Proofs.LexEndProofs Proofs.ParserTermProofs Proofs.ParserStableProofs.
 From Coq Require Import Lia.
 
 (** every state function, on every cursor, sends at most four tokens (the channel holds [c_token_queue_cap] tokens,
@@ -123,6 +125,16 @@ Proof.
   - unfold parse_budget, levels2. lia.
 Qed.
 Print Assumptions C06_parse_terminates.
+
+(** above the linear bounds the budgets do not matter: the parse is the same for all of them *)
+Theorem C06_budgets_do_not_matter : forall input lf pf lf' pf',
+  (9 * (List.length input + 1) <= lf)%nat -> (9 * (List.length input + 1) <= lf')%nat ->
+  (460 * (List.length input + 1) + 2 <= pf)%nat -> (460 * (List.length input + 1) + 2 <= pf')%nat ->
+  parse_bytes_with lf pf input = parse_bytes_with lf' pf' input.
+Proof.
+  intros input lf pf lf' pf' H1 H2 H3 H4. apply parse_budget_irrelevant; unfold rk_levels, parse_budget, levels2; lia.
+Qed.
+Print Assumptions C06_budgets_do_not_matter.
 
 (** the loops inside the state functions run on the reader's bytes as fuel and return what they have when it is used
     up; that never happens: with any amount of additional fuel they return the same *)
